@@ -68,11 +68,12 @@ QS(i) == IF i = 0 THEN "" ELSE LET q == QS(i - 1) c == Txt[i] IN
 \* wrap here: the rest of the statement goes to a continuation line; outside a character literal the line that is
 \* left may carry a trailing comment (with an odd quote in it)
 Break == /\ ~done /\ pos > 1 /\ pos <= Len(Txt) /\ nb < MaxBreaks
-         /\ Txt[pos - 1] # " "                       \* class restriction: no significant blank at a line end
          /\ Txt[pos - 1] # "&"                       \* class restriction: a line ending in & is taken for free form by the detector
          /\ Len(cur) > 6
          /\ \E c \in ContChars, b \in CmtLines, tc \in { <<>>, <<"!", "i", "t", "'", "s">> } :
               /\ (tc # <<>> => QS(pos - 1) = "")
+              \* class restriction: no significant blank at a line end (behind it a trailing comment: the blank is kept)
+              /\ (Txt[pos - 1] = " " => tc # <<>>)
               /\ LET extras == (IF b # <<>> THEN 1 ELSE 0) + (IF tc # <<>> THEN 1 ELSE 0) IN
                    /\ nx + extras <= MaxExtras /\ nx' = nx + extras
               /\ lines' = Append(lines, cur \o tc) \o b
